@@ -582,6 +582,27 @@ def shrink(sc, binary, case, codes):
             size = max(size // 2, 1)
         else:
             break
+    # operations run inside a policy switch: a single one if possible, else drop them one at a time
+    cands = []
+    for i, op in enumerate(ops):
+        if op.get("hook") and len(op["hook"]["ops"]) > 1:
+            for j in range(len(op["hook"]["ops"])):
+                cands.append(dict(cur, ops=ops[:i] + [dict(op, hook=dict(op["hook"], ops=[op["hook"]["ops"][j]]))] + ops[i + 1:]))
+    f = failing(cands)
+    if f:
+        ops = cands[f[0]]["ops"]
+    for _ in range(6):
+        cands = []
+        for i, op in enumerate(ops):
+            if op.get("hook"):
+                for j in range(len(op["hook"]["ops"])):
+                    if len(op["hook"]["ops"]) > 1:
+                        h2 = dict(op["hook"], ops=op["hook"]["ops"][:j] + op["hook"]["ops"][j + 1:])
+                        cands.append(dict(cur, ops=ops[:i] + [dict(op, hook=h2)] + ops[i + 1:]))
+        f = failing(cands)
+        if not f:
+            break
+        ops = cands[f[-1]]["ops"]
     cur["ops"] = ops
     # simplify parameters
     cands = []
@@ -608,7 +629,9 @@ def input_class(case):
     """coarse class of a failing input, only used to report one replay per class"""
     lats = [op.get("lat", 0) for op in case["ops"] if op["k"] in ("sample", "silent")]
     big = bool(case["offs"]) and max(case["offs"]) + max(lats + [0]) >= HOUR
-    return ("latency-at-or-above-1h",) if big else ()
+    hooked = any(op.get("hook") for op in case["ops"])
+    return (("latency-at-or-above-1h",) if big else ()) + (("inside-policy-switch",) if hooked else ()) + \
+        (("non-member",) if case.get("foreign") else ())
 
 
 def matchers_for(case):
